@@ -242,6 +242,15 @@ int _vnacal_new_solve_auto(vnacal_new_solve_state_t *vnssp,
 		"standards given to solve the system");
 	return -1;
     }
+    for (int sindex = 0; sindex < vnp->vn_systems; ++sindex) {
+	/* every linear system needs its own equations: they're not shared */
+	if (vnp->vn_system_vector[sindex].vns_equation_count <
+		vlp->vl_t_terms - 1) {
+	    _vnacal_error(vcp, VNAERR_MATH, "vnacal_new_solve: not enough "
+		    "standards given to solve the system");
+	    return -1;
+	}
+    }
     p_equations = equations - x_length;
     j_rows = p_equations + correlated;
 
